@@ -46,6 +46,12 @@ def main():
     d = between(d, 'SEEDTABLE', st)
     ct = '| property | known findings listed |\n|---|---|\n' + ''.join('| %s | %d |\n' % kv for kv in sorted(counts.items()))
     d = between(d, 'FINDINGCOUNTS', ct)
+    man = json.load(open('/verif/MANIFEST.json'))
+    bt = '| property | deciding technique (as registered) | what is enumerated and judged |\n|---|---|---|\n'
+    for c in man['checks']:
+        bt += '| %s | %s | %s |\n' % (c['property_id'], c.get('technique', '').replace('|', '\\|'),
+                                     c['level_claimed']['text'].replace('|', '\\|'))
+    d = between(d, 'BUILTTABLE', bt)
     open(D, 'w').write(d)
     print('repairs', len(log), 'seeds', len(glob.glob('/verif/seeded/*/meta.json')), 'findings', sum(counts.values()))
 
